@@ -46,7 +46,23 @@ def sources(tier):
                 n = int(np.prod(shape))
                 for seed in (1, 2) if tier != "quick" else (1,):
                     expr = tmpl.format(g=GENS[gk].format(seed=seed), shape=shape, chunks=chunks, n=n)
-                    out.append({"random": expr, "shape": list(shape), "chunks": [list(c) for c in chunks], "alt": tmpl.format(g=GENS[gk].format(seed=seed + 100), shape=shape, chunks=chunks, n=n), "dist": dname})
+                    out.append({"random": expr, "shape": list(shape), "chunks": [list(c) for c in chunks], "alt": tmpl.format(g=GENS[gk].format(seed=seed + 100), shape=shape, chunks=chunks, n=n), "dist": dname,
+                                "sib": None if dname == "permutation" else tmpl.format(g=GENS[gk].format(seed=seed), shape="{shape}", chunks="{chunks}", n=n)})
+    return out
+
+
+def sibling_layouts(shape, chunks):
+    """Every other layout with the same element count and the same number of
+    blocks: the same shape cut elsewhere, and (2-D) the transposed shape."""
+    from mc.domains import compositions
+
+    nb = int(np.prod([len(c) for c in chunks]))
+    shapes = [tuple(shape)] + ([tuple(shape[::-1])] if len(shape) == 2 and shape[0] != shape[1] else [])
+    out = []
+    for shp in shapes:
+        for ch in itertools.product(*[compositions(n) for n in shp]):
+            if int(np.prod([len(c) for c in ch])) == nb and not (shp == tuple(shape) and tuple(ch) == tuple(map(tuple, chunks))):
+                out.append((shp, tuple(ch)))
     return out
 
 
@@ -58,9 +74,9 @@ _base = X.make(
     "C23", judge,
     quick=lambda seed: (E.plan_shards(sources("quick"), OPS.subset(names=DERIVED), 2), {"depth": 2, "ops": len(DERIVED), "random_sources": len(sources("quick"))}),
     thorough=lambda seed: (E.plan_shards(sources("thorough"), OPS.subset(names=DERIVED), 2), {"depth": 2, "ops": len(DERIVED), "random_sources": len(sources("thorough"))}),
-    rule="for every generator kind (RandomState, default_rng) x distribution (random, normal with scalar and array-valued loc, poisson with array lam, uniform, integers/randint, standard_normal, exponential, choice, permutation) x shape/chunking: a = x.compute() once; every depth<=2 program derived from x (slices, takes, rechunks, transposes, elemwise with itself and with siblings, reductions, scans, windows, fused chains) equals the NumPy op on a; recomputing x equals a; rebuilding with the same seed gives the same name and values; another seed gives other values; the derived programs are computed in both orders and twice. Non-trivial = multi-block random source",
+    rule="(plus, per source: every sibling layout with the same element count and block count -- same shape cut elsewhere, transposed shape -- drawn from the same seed while the first array is alive keeps its requested shape/chunks, joint and separate computes agree, x - sibling is computed from both realizations) for every generator kind (RandomState, default_rng) x distribution (random, normal with scalar and array-valued loc, poisson with array lam, uniform, integers/randint, standard_normal, exponential, choice, permutation) x shape/chunking: a = x.compute() once; every depth<=2 program derived from x (slices, takes, rechunks, transposes, elemwise with itself and with siblings, reductions, scans, windows, fused chains) equals the NumPy op on a; recomputing x equals a; rebuilding with the same seed gives the same name and values; another seed gives other values; the derived programs are computed in both orders and twice. Non-trivial = multi-block random source",
     assumptions=["the first computed realization is the reference", "synchronous scheduler"],
-    floors={"evaluations": 3000, "rebuild_checks": 20},
+    floors={"evaluations": 3000, "rebuild_checks": 20, "sibling_checks": 100},
 )
 globals().update(_base)
 _monitor0 = _base["monitor"]
@@ -97,6 +113,31 @@ def monitor(ctx):
         vp = np.asarray(xp.compute(scheduler="sync"))
         if xp.name != x.name or not np.array_equal(vp, a, equal_nan=True):
             return [{"kind": "pickle-realization", "signature": f"pickle-realization:{src['dist']}", "detail": "a pickled copy of the random array computes another realization / has another name"}]
+        # siblings: the same seed and distribution drawn with another layout of the
+        # same element count and block count, built while x is alive
+        if src.get("sib"):
+            import dask
+
+            for shp, ch in sibling_layouts(tuple(src["shape"]), [tuple(c) for c in src["chunks"]]):
+                out.count("sibling_checks")
+                try:
+                    sb = eval(src["sib"].format(shape=shp, chunks=ch), {"da": da, "np": np})
+                except NotImplementedError:
+                    continue
+                except Exception as e:  # noqa: BLE001
+                    if src["dist"] in ("normal_arrloc", "poisson_arrlam") and shp != tuple(src["shape"]):
+                        continue  # the parameter array has the original shape
+                    return [{"kind": "sibling-raise", "signature": f"sibling-raise:{src['dist']}", "detail": f"building the sibling layout {shp}/{ch} raised {type(e).__name__}: {str(e)[:160]}"}]
+                if tuple(sb.shape) != shp or tuple(sb.chunks) != ch:
+                    return [{"kind": "sibling-layout", "signature": f"sibling-layout:{src['dist']}", "detail": f"asked for shape {shp} chunks {ch} (same seed as the live array {x.shape}/{x.chunks}); got shape {sb.shape} chunks {sb.chunks}"}]
+                v1 = np.asarray(sb.compute(scheduler="sync"))
+                jx, js = dask.compute(x, sb, scheduler="sync")
+                if not np.array_equal(np.asarray(jx), a, equal_nan=True) or not np.array_equal(np.asarray(js), v1, equal_nan=True):
+                    return [{"kind": "sibling-joint", "signature": f"sibling-joint:{src['dist']}", "detail": f"dask.compute(x, sibling {shp}/{ch}) differs from the separate computes"}]
+                if shp == tuple(src["shape"]):
+                    d = np.asarray((x - sb).compute(scheduler="sync")) if x.dtype.kind in "fi" else None
+                    if d is not None and not np.allclose(d, a.astype("f8") - v1.astype("f8"), equal_nan=True):
+                        return [{"kind": "sibling-diff", "signature": f"sibling-diff:{src['dist']}", "detail": f"(x - sibling {ch}) is not computed from the two realizations"}]
         # blocks are independent streams: no two blocks identical (when large enough)
         return []
     if len(ctx.dpool) >= 3:
